@@ -140,6 +140,23 @@ func main() {
 
 // readInputs reads a JSON-lines file; each line either a bare input or a record with an "in" field.
 func readInputs(path string) []json.RawMessage {
+	// a replay file written by ./check: one (indented) JSON object with an "in" field
+	if whole, err := os.ReadFile(path); err == nil {
+		var probe map[string]json.RawMessage
+		if json.Unmarshal(whole, &probe) == nil {
+			if in, ok := probe["in"]; ok {
+				return []json.RawMessage{in}
+			}
+			if sm, ok := probe["smallest_mismatch"]; ok {
+				var inner map[string]json.RawMessage
+				if json.Unmarshal(sm, &inner) == nil {
+					if in, ok := inner["in"]; ok {
+						return []json.RawMessage{in}
+					}
+				}
+			}
+		}
+	}
 	f, err := os.Open(path)
 	if err != nil {
 		return nil
